@@ -797,7 +797,9 @@ fn is_decision_point(c: &Call, phase: &str, own: &std::collections::HashSet<Stri
     }
     // fd-based
     match c.name {
-        "utimens" | "stat" | "getdents" | "chmod" | "truncate" => shared(&c.fdloc),
+        // (data calls on a file that is NOT this participant's own temp file are scheduling points too: a shared
+        // temporary or published file being written is visible to everybody)
+        "utimens" | "stat" | "getdents" | "chmod" | "truncate" | "write" | "copy" => shared(&c.fdloc),
         _ => false,
     }
 }
